@@ -19,7 +19,7 @@ CLAIMED = {
             "entry points: evaluate_list / the curve grid is the map of evaluate_single, the surface grid has |us|*|vs| points with point (i,j) at flat index i*|vs|+j (volume: u slowest, w fastest), its first and last "
             "points are the surface points at the domain corners, and entry 0 of Curve.derivatives(u, order) is the evaluated point for every order. "
             "The model is tied to Curve/Surface/Volume evaluate_single / evaluate_list / evalpts / derivatives(order=0) (BSpline and NURBS) by exact correspondence.",
-            "Not proved: the zeroth derivative of surfaces through the A2.3-based model and the object layer's dispatch to the model functions (tied by correspondence + exact oracle). "
+            "The zeroth derivative of surfaces is covered coordinatewise by C02 (surface_derivatives_are_true_mixed_derivatives at k = l = 0 and surface_span_polynomial_is_the_surface). Not proved: the object layer's dispatch to the model functions (tied by correspondence + exact oracle). "
             "Known finding F-01 (sample size under normalize_kv=False) is reported as KNOWN-FINDING."),
     'C04': ("7/C04",
             "Lean theorems insert_preserves_curve (function level: spans found by the library's linear search before and after, EVERY parameter of the domain incl. both ends), insert_sequence_preserves (ANY sequence of admissible insertions, by induction over the request list, well-formedness preserved) and insert_preserves_curve_point: for every degree, sorted knot vector, control polygon of any dimension (homogeneous points for rational curves), "
@@ -57,10 +57,14 @@ CLAIMED = {
     'C02': ("7/C02",
             "Lean theorems: curve_derivatives_are_true_derivatives - entry k of the model of Curve.derivatives(u, order) (A3.3 + A3.4) equals the k-th iterated Polynomial.derivative of the span polynomial evaluated at u, "
             "for EVERY k <= order (zero above the degree), every degree, sorted knot vector, non-empty span, parameter, dimension (the derivative from the right at knots); the span polynomial evaluates to the curve point (ties to C01); "
-            "the general polynomial identity behind it (derivative^[k] of the degree-p span polynomial = degree p-k span polynomial of the k-fold scaled differences); A4.2's rational derivatives solve the Leibniz system of every "
-            "order. The model (A3.3/A3.4 for all orders, basis derivatives specified as derivatives of unit-control-point curves, A4.2, A4.4 as coded, tensor surface derivatives) is tied to Curve.derivatives / Surface.derivatives "
-            "for both evaluator families (A3.2/A3.6 via A2.3 and A3.4/A3.8), rational and not, orders 0..degree+2, by exact correspondence; an independent exact jet-arithmetic oracle checks every returned vector, the hodograph constructors, tangent and normal.",
-            "Not proved: the surface case and A4.2/A4.4 list models as Lean theorems about the model functions (scalar Leibniz theorem is); A2.3's table (spec-level model). Unit length of normalised vectors is floating point (oracle, 1e-12). "
+            "surface_derivatives_are_true_mixed_derivatives - entry [k][l] of the surface model equals the mixed partial derivative (pderivU^[k] pderivV^[l]) of the bivariate span polynomial in F[X][Y] evaluated at (u,v), for all k, l <= order "
+            "(triangular variant: k + l <= order, the rest zero), partial derivatives commute; A2.3 (helpers.basis_function_ders) TRANSCRIBED LITERALLY (basisFunsDersA23: ndu table, alternating a rows, j1/j2 bounds, final factor loop) is proved equal to the "
+            "specification table, whose entries are the true derivatives of the basis polynomials; every divisor of A2.3 is a positive knot difference under the span guard; A3.2 over that table is the true derivative; "
+            "the A4.2 and A4.4 list models solve the univariate / bivariate Leibniz systems of every order, whose solution is unique when the weight function does not vanish (i.e. they are the derivatives of the quotient A/w); "
+            "cross-product orthogonality of the normal and exact unit length of v/mag. The model is tied to Curve.derivatives / Surface.derivatives for both evaluator families (A3.2/A3.6 via A2.3 and A3.4/A3.8), rational and not, orders 0..degree+2, and to "
+            "helpers.basis_function_ders itself by exact correspondence; an independent exact jet-arithmetic oracle checks every returned vector, the hodograph constructors, tangent and normal.",
+            "By correspondence + oracle only: the loop structure of SurfaceEvaluator.derivatives / SurfaceEvaluator2 (A3.6-A3.8 tables; the model is the tensor formula over two basis tables), the hodograph constructors, operations.tangent / normal "
+            "(orthogonality is proved on the model's cross product of surface derivative entries). The quotient view of rational derivatives goes through the Leibniz system and its uniqueness. Unit length of normalised vectors in floating point: oracle, 1e-12. "
             "F-02 (alternative surface evaluator, order > degree_u) was reported with a replay and fixed; F-02b (derivative_surface on C0 knots) is a recorded finding."),
     'C08': ("7/C08",
             "Lean theorems over the executable model, for every degree, elevation count, dimension, parameter and field of characteristic 0: binomial_coefficient = Nat.choose; "
@@ -170,7 +174,7 @@ CLAIMED = {
             "basis_function_ders_one (A2.5, literal model) equals the k-th derivative column of the A2.3 specification table for order <= degree; the derivative rows of the table sum to 0 and row 0 is A2.2; "
             "knot vector utilities: generate has the documented length, is sorted, passes check, has end multiplicities exactly p+1 (clamped) and the closed-form entries; check is true exactly for the right length without descent; normalize is the affine map onto [0,1], "
             "strictly order preserving, idempotent; linspace spec. Model tied to helpers.find_span_* / basis_function* / basis_function_ders_one / knotvector.* by exact correspondence.",
-            "A2.3 (basis_function_ders) is modelled at specification level (derivatives of the unit-control-point curves); that the code's table equals it is the exact correspondence. A2.4 = Cox-de Boor is stated with the hypotheses U p <= u, U 0 < U (p+1) and the last-knot exception "
+            "A2.3 (basis_function_ders): the literal transcription is proved equal to the specification table in C02 (a23_as_coded_is_the_derivative_table). A2.4 = Cox-de Boor is stated with the hypotheses U p <= u, U 0 < U (p+1) and the last-knot exception "
             "(the code returns 1 for the last function at the last knot, the half-open definition gives 0; proved equal to the A2.2 entry there). A2.5 is proved for order <= degree on half-open spans. F-17b is a recorded finding."),
 }
 NOT_YET = {}
